@@ -4,7 +4,7 @@ from __future__ import annotations
 import random
 
 from .. import gen, sem
-from ..snapshot import CLASS_NAMES, VIAS, build, build_case, pg_from_json, pg_to_json, snap
+from ..snapshot import CLASS_NAMES, VIAS, build, build_case, case_graph_for_sample, case_pg, pg_from_json, pg_to_json, snap
 
 LEVEL = "exploration"
 RULE = (
@@ -32,7 +32,7 @@ ANCHORS = [
     "stereomolgraph.graphs.scrg:StereoCondensedReactionGraph.relabel_atoms",
 ]
 REQUIRED_ANCHORS = ANCHORS
-REQUIRED = ["eq_observed", "with_changes", "with_placeholder", "with_unspecified", "empty_graph", "isolated_atoms", "harness_crosscheck", "disconnected", "large_graphs"]
+REQUIRED = ["eq_observed", "with_changes", "with_placeholder", "with_unspecified", "empty_graph", "isolated_atoms", "harness_crosscheck", "disconnected", "large_graphs", "scale_cases"]
 VARIANTS = ("rebuild", "relabel_copy", "relabel_inplace", "rewrite", "all", "derived")
 
 
@@ -69,6 +69,10 @@ def gen_cases(ctx):
             pg = gen.random_pg(rng, cls, n_range=big if rng.random() < 0.3 else (2, 9), alphabet=rng.choice([gen.TINY, gen.SMALL, gen.WIDE]), p_none=p_none, allow_empty=False)
         m = gen.random_bijection(rng, pg)
         yield {"cls": cls, "pg": pg_to_json(pg), "variant": VARIANTS[j % len(VARIANTS)], "bseed": rng.randrange(1 << 30), "idmap": [[a, b] for a, b in m.items()]}
+    # very long chains (300-2600 backbone atoms): deep recursion / n*n index arithmetic inside == and hash
+    for k, nsz in enumerate(gen.SCALE_SIZES[ctx.tier]):
+        for c, cls in enumerate(CLASS_NAMES):
+            yield {"cls": cls, "scale": nsz, "gseed": rng.randrange(1 << 30), "variant": ("rebuild", "relabel_copy", "derived", "relabel_inplace")[(k + c) % 4], "bseed": rng.randrange(1 << 30)}
 
 
 def _variant(pg, variant, brng, m):
@@ -96,9 +100,11 @@ def _variant(pg, variant, brng, m):
 
 
 def check_case(ctx, case):
-    pg = pg_from_json(case["pg"])
+    pg = case_pg(case)
+    if "scale" in case:
+        ctx.count("scale_cases")
     cls, variant = case["cls"], case["variant"]
-    m = {a: b for a, b in case["idmap"]}
+    m = {a: b for a, b in case["idmap"]} if "idmap" in case else gen.random_bijection(random.Random(case["bseed"] + 1), pg)
     brng = random.Random(case["bseed"])
     feats = features(pg)
     fkey = "+".join(feats) or "plain"
@@ -144,4 +150,4 @@ def check_case(ctx, case):
             ctx.count("harness_crosscheck")
         except TimeoutError:
             pass
-    ctx.sample({"class": cls, "variant": variant, "graph": case["pg"], "idmap": case["idmap"][:6]})
+    ctx.sample({"class": cls, "variant": variant, "graph": case_graph_for_sample(case), "idmap": case.get("idmap", [])[:6]})
